@@ -57,7 +57,8 @@ func genCase(t *rapid.T) Case {
 	for i := 0; i < c.Frames; i++ {
 		c.Sizes = append(c.Sizes, rapid.SampledFrom([]int{0, 1, 10, 100, 1000}).Draw(t, "size"))
 	}
-	c.Limit = rapid.IntRange(0, 3).Draw(t, "limit")
+	// retry settings: 0-3, and negative values (set through the options struct; "less than 1 means no retry")
+	c.Limit = rapid.SampledFrom([]int{0, 0, 1, 2, 3, -1, -4}).Draw(t, "limit")
 	c.After = rapid.IntRange(1, 4).Draw(t, "after")
 	switch c.Kind {
 	case "cut":
@@ -176,7 +177,7 @@ func newLab(limit int, plans ...rlab.ConnPlan) (*lab, error) {
 		return nil, err
 	}
 	bindA := fmt.Sprintf("127.0.0.1:%d", rlab.FreePort())
-	if l.A, err = rlab.StartNode(rlab.NodeOpt{Bind: bindA, Advertise: bindA, ReconnectLimit: limit}); err != nil {
+	if l.A, err = rlab.StartNode(rlab.NodeOpt{Bind: bindA, Advertise: bindA, ReconnectLimit: limit, RawLimit: limit < 0}); err != nil {
 		l.B.Stop()
 		l.proxy.Close()
 		return nil, err
@@ -362,12 +363,17 @@ func run(c Case) (v *verdict, inconclusive string, nontrivial bool, labels []str
 		}
 	case "refuse":
 		nontrivial = true
-		s0 := send(c.Sizes[0])
+		// the Tell is issued on a goroutine of its own: with an unreachable peer it blocks its caller for the whole
+		// retry loop (KF-C14-1), and a retry loop that never ends must become a verdict, not a hung check
+		s0 := seq
+		seq++
+		sizes[s0] = c.Sizes[0]
+		go l.A.Sys.Tell(target, &rlab.Msg{Sender: sender, Seq: s0, Kind: rlab.KData, Body: rlab.Body(sender, s0, c.Sizes[0])})
 		ok, dl := settled(s0)
 		if !ok {
 			return &verdict{"C14/dead-letter|missing", fmt.Sprintf("%d connection attempts refused, reconnect limit %d: the message was neither delivered nor reported as a dead letter within 8 s; sender events %+v; case %s", c.Refuse, c.Limit, l.A.Events.Snapshot(), c.JSON())}, "", true, labels
 		}
-		attempts := c.Limit + 1
+		attempts := max(c.Limit, 0) + 1 // a limit below 1 means no retry: one attempt
 		if c.Refuse >= attempts {
 			// every write attempt failed
 			if delivered(l.B, s0) {
